@@ -59,6 +59,7 @@ class Contract:
         self.raises = []              # exception class names the function may raise
         self.must_raise = []          # [(label, FunctionDef)]: condition => the call raises
         self.invariants = {}          # loop ordinal -> [(label, FunctionDef)]
+        self.loop_hints = {}          # loop ordinal -> [(label, FunctionDef)]
         self.loop_kinds = {}          # loop ordinal -> {var: kind}
         self.memo = None
         self.modifies = []            # names of parameters / captured variables modified (copy-out)
@@ -158,6 +159,16 @@ class World:
                         c.ensures.append((nm, item))
                     elif nm.startswith('must_raise'):
                         c.must_raise.append((nm, item))
+                    elif nm.startswith('loop_hint'):
+                        # loop_hint<ordinal>: lemma instances at the head of the loop, evaluated on the arbitrary
+                        # iteration state right after the invariants have been assumed (a hint, never an assumption:
+                        # a lemma call proves the lemma's requires and assumes its separately proved ensures)
+                        rest = nm[len('loop_hint'):]
+                        num = ''
+                        while rest and rest[0].isdigit():
+                            num += rest[0]
+                            rest = rest[1:]
+                        c.loop_hints.setdefault(int(num or 0), []).append((nm, item))
                     elif nm.startswith('hint'):
                         c.hints.append((nm, item))
                     elif nm == 'decreases':
